@@ -19,7 +19,8 @@ from mc.runner import Stats
 ID = "C05"
 LEVEL = "exploration"
 TECHNIQUE = "exhaustive program x schedule enumeration, differential against synchronous execution"
-RULE = ("every program AST with at most S nodes over {await fresh Deferred, yield plain value, return, raise, "
+RULE = ("every program AST with at most S nodes over {await fresh Deferred, yield plain value, return, raise, cancel own "
+        "returned Deferred (<= 4-node programs), "
         "try/except, try/finally (return/await allowed inside finally), 2-iteration loop, call of a nested function "
         "implemented as inlineCallbacks generator / ensureDeferred(coroutine) / bare coroutine object}; for every "
         "program every assignment, in dynamic order, of {already fired with value, already fired with failure, fires "
@@ -52,7 +53,11 @@ ASSUMPTIONS = [
     "the synchronous oracle uses the post-unpause result; at most one cancel per suspension",
     "the three interpreters are one source text; Python's own semantics of generators/coroutines/try/finally are trusted",
     "coroutines cannot await plain values: the 'plain value' statement is a local assignment there",
-    "cancellers that raise, and cancel() from inside the function itself, are outside the alphabet",
+    "cancellers that raise are outside the alphabet",
+    "self-cancel statement: the function calls cancel() on its own returned Deferred while running (possible only after "
+    "its first real suspension, when the call has returned the Deferred; in a nested function it cancels the outermost "
+    "returned Deferred); the statement is silent on it, accepted: exactly one firing with the function's own outcome "
+    "(and the synchronous trace) or with CancelledError; never an exception raised by the machinery",
 ]
 MIN = {"quick": {"evaluations": 950000, "nontrivial": 900000, "outcomes": 9},
        "thorough": {"evaluations": 12000000, "nontrivial": 11000000, "outcomes": 7}}
@@ -110,6 +115,8 @@ TEMPLATE = '''
     elif op == "P":
         x = {PLAIN}
         env.log(("plain", x))
+    elif op == "C":
+        env.log(("self-cancel", env.self_cancel()))
     elif op == "R":
         env.log(("return",))
         return ("ret", env.retval())
@@ -224,6 +231,15 @@ class ModelEnv(BaseEnv):
         self.max_cancels = max_cancels
         self.ncancels = 0
         self.suspensions = 0
+        self.selfcancels = 0
+
+    def self_cancel(self):
+        # The function can only hold its own returned Deferred once the call has returned, i.e. after it has been
+        # suspended at least once.  Cancelling while running injects nothing into the function.
+        if self.suspensions:
+            self.selfcancels += 1
+            return True
+        return False
 
     def fresh(self):
         self.nfresh += 1
@@ -296,6 +312,15 @@ class RealEnv(BaseEnv):
         self.outstanding = []
         self.diverged = False
         self.canceller_runs = []
+        self.handle = None          # the function's own returned Deferred, available once the call has returned
+        self.selfcancelled = False
+
+    def self_cancel(self):
+        if self.handle is None:
+            return False
+        self.selfcancelled = True
+        self.handle.cancel()
+        return True
 
     def fresh(self):
         self.nfresh += 1
@@ -390,6 +415,7 @@ def run_real(flavour, program, decisions, exp_trace, exp_final):
         else:
             ret = ensureDeferred(async_function(env, program))
         ret.addBoth(fired.append)
+        env.handle = ret
         guard = 0
         while env.outstanding and not bad:
             guard += 1
@@ -404,7 +430,9 @@ def run_real(flavour, program, decisions, exp_trace, exp_final):
             j = env.outstanding.pop(0)
             kind, canc = env.decisions[j]
             d = env.ds[j]
-            if fired:
+            if fired and env.selfcancelled and isinstance(fired[0], Failure) and fired[0].check(CancelledError):
+                pass    # after a re-entrant self-cancel an immediate CancelledError on the returned Deferred is accepted
+            elif fired:
                 bad.append((comp + ":returned-deferred-fired-while-function-still-waits" + suffix(),
                             "fired with %r while awaiting #%d" % (describe(fired[0]), j)))
                 break
@@ -460,7 +488,29 @@ def run_real(flavour, program, decisions, exp_trace, exp_final):
                     if isinstance(e, APP) else
                     "%s:exception-escaped:%s%s" % (comp, type(e).__name__, suffix()),
                     traceback.format_exc()[-1200:]))
-    if not bad:
+    if not bad and env.selfcancelled:
+        # The function cancelled its own returned Deferred while running.  Statement: fires exactly once; accepted:
+        # the function's own outcome (with the synchronous trace) or CancelledError (trace equal up to the self-cancel);
+        # never an exception of the machinery.
+        sfx = ":after-self-cancel"
+        first = exp_trace.index(("self-cancel", True)) + 1 if ("self-cancel", True) in exp_trace else 0
+        if len(fired) != 1:
+            bad.append(("%s:returned-deferred-fired-%d-times%s" % (comp, len(fired), sfx),
+                        "synchronous outcome %r" % (exp_final,)))
+        elif isinstance(fired[0], Failure) and not isinstance(fired[0].value, APP + (CancelledError,)):
+            bad.append(("%s:returned-deferred-fails-with-machinery-exception:%s%s" % (
+                comp, type(fired[0].value).__name__, sfx), "real %r, synchronous %r" % (describe(fired[0]), exp_final)))
+        elif describe(fired[0]) == exp_final and env.trace == exp_trace and not env.diverged:
+            pass
+        elif describe(fired[0]) == ("raise", "CancelledError") and env.trace[:first] == exp_trace[:first]:
+            pass
+        elif env.trace != exp_trace:
+            bad.append((comp + ":observed-outcomes-differ-from-synchronous-run" + sfx,
+                        "real %r, synchronous %r" % (env.trace[-4:], exp_trace[-4:])))
+        else:
+            bad.append((comp + ":final-result-differs-from-synchronous-run" + sfx,
+                        "real %r, synchronous %r" % (describe(fired[0]), exp_final)))
+    elif not bad:
         if env.trace != exp_trace or env.diverged:
             k = 0
             while k < len(env.trace) and k < len(exp_trace) and env.trace[k] == exp_trace[k]:
@@ -496,6 +546,7 @@ def run_real(flavour, program, decisions, exp_trace, exp_final):
 # ------------------------------------------------------------------ program enumeration
 
 FULL = (("A",), ("P",), ("R",), ("X",)), NESTED
+FULLC = (("A",), ("P",), ("C",), ("R",), ("X",)), NESTED     # + "the function cancels its own returned Deferred"
 REDUCED = (("A",), ("R",), ("X",)), ("icb", "raw")
 
 
@@ -558,6 +609,15 @@ def has_await(block):
     return False
 
 
+def programs_c(upto):
+    out = []
+    for size in range(1, upto + 1):
+        for b in blocks(size, FULLC):
+            if has_await(b):
+                out.append(b)
+    return out
+
+
 def programs(full_upto, reduced_upto=0):
     """Full grammar for sizes <= full_upto, reduced grammar (no plain-value statement, nested calls only as
     inlineCallbacks / bare coroutine) for full_upto < size <= reduced_upto."""
@@ -574,7 +634,7 @@ def tier_programs(tier):
     """-> list of (program, max_cancels, mode); mode None = all 8 awaited-Deferred states are a choice,
     mode k = 4 states with the transport of unfired ones (plain / paused / chained) rotated by (await index + k) % 3"""
     small = programs(4)
-    out = [(p, 1, None) for p in small] + [(p, 2, i) for i, p in enumerate(small)]
+    out = [(p, 1, None) for p in small] + [(p, 2, i) for i, p in enumerate(programs_c(4))]
     if tier == "quick":
         both = programs(4, 5)
         out += [(p, 1, i) for i, p in enumerate(both[len(small):])]
